@@ -743,6 +743,16 @@ fn stmt_expr_variants(s: &Stmt) -> Vec<Stmt> {
             out.extend(expr_variants(e).into_iter().map(|x| Stmt::MatchAssign(*v, x, e2.clone())));
             out.extend(expr_variants(e2).into_iter().map(|x| Stmt::MatchAssign(*v, e.clone(), x)));
         }
+        Stmt::KeyChainCall(v, func, arg, site, form) => {
+            out.push(Stmt::Assign(
+                *v,
+                Expr::Call(Box::new(Call { conduit: Conduit::Plain, func: *func, arg: arg.clone(), drop_arg: false, site: *site })),
+            ));
+            if *form != 0 {
+                out.push(Stmt::KeyChainCall(*v, *func, arg.clone(), *site, form & (form - 1)));
+            }
+            out.extend(expr_variants(arg).into_iter().map(|x| Stmt::KeyChainCall(*v, *func, x, *site, *form)));
+        }
         Stmt::AssignLambdaCall(v, func, arg, site) => {
             out.push(Stmt::Assign(
                 *v,
@@ -938,7 +948,7 @@ fn calls_func(b: &Block, func: usize) -> bool {
             | Stmt::Expr(e) => in_expr(e, func),
             Stmt::MatchAssign(_, e, e2) => in_expr(e, func) || in_expr(e2, func),
             Stmt::LoopTryBreak(_, _, pre, val, handler) => in_block(pre) || in_expr(val, func) || in_block(handler),
-            Stmt::AssignLambdaCall(_, f2, e, _) => *f2 == func || in_expr(e, func),
+            Stmt::AssignLambdaCall(_, f2, e, _) | Stmt::KeyChainCall(_, f2, e, _, _) => *f2 == func || in_expr(e, func),
             Stmt::AssignList(es) => es.iter().any(|e| in_expr(e, func)),
             Stmt::AssignStr(ps) => ps.iter().any(|p| matches!(p, StrPart::Int(e) if in_expr(e, func))),
             Stmt::Throw(ThrowKind::Typed(_, e)) | Stmt::Throw(ThrowKind::Num(e)) => in_expr(e, func),
